@@ -1058,7 +1058,14 @@ func execCase[T any, TP ez.ConfigWithConfigPath[T]](c C18Case, td *typeDef, bubb
 		return vrt.KeyedViolationf("events-pending", "immediately after the entry point returned, Events() delivered %s", describe(earlyEvent)).With(nonTrivial, labels...)
 	}
 	if !eq(defaults, defaultsBefore) {
-		labels = append(labels, "defaults-struct-modified")
+		// not part of C18 (informational): the flag source binds set/slice
+		// flags to the fields of the caller's defaults struct
+		labels = append(labels, "info:defaults-struct-modified-by-flags")
+		for _, ln := range strings.Split(strings.TrimSpace(leafDiff(td, defaults, defaultsBefore)), "\n") {
+			if f := strings.Fields(ln); len(f) >= 2 {
+				labels = append(labels, "info:defaults-struct-modified:"+c.Type+"."+strings.TrimSuffix(f[1], ":"))
+			}
+		}
 	}
 
 	// let everything that is still in flight land, then look again
